@@ -169,6 +169,30 @@ func structuredPointInput(t *rapid.T, gi *GroupInfo, valid []byte) ([]byte, stri
 		if gi.Role == 3 {
 			return fieldEdit(p, 12, 32, 0)
 		}
+		if gi.Role == 2 && size == 128 && rapid.IntRange(0, 2).Draw(t, "fp2half") == 0 {
+			// G2 coordinates are elements u*i+v of Fp2 (i^2=-1).  Keep x, replace y by a y' whose square
+			// agrees with y^2 (= x^3+b') in ONE of its two Fp coefficients only: y'^2 = (v'^2-u'^2) + 2u'v'*i.
+			// A curve test that compares half of the field element accepts it.
+			out := append([]byte(nil), valid...)
+			u, v := new(big.Int).SetBytes(valid[64:96]), new(big.Int).SetBytes(valid[96:128])
+			k := new(big.Int).SetInt64(int64(rapid.IntRange(2, 1000).Draw(t, "k")))
+			kinv := new(big.Int).ModInverse(k, p)
+			mul := func(a, b *big.Int) *big.Int { return new(big.Int).Mod(new(big.Int).Mul(a, b), p) }
+			var u2, v2 *big.Int
+			kind := rapid.SampledFrom([]string{"fp2-half:same-2uv", "fp2-half:same-v2-u2"}).Draw(t, "half")
+			if kind == "fp2-half:same-2uv" {
+				u2, v2 = mul(u, k), mul(v, kinv)
+			} else {
+				a, b := new(big.Int).Mod(new(big.Int).Sub(v, u), p), new(big.Int).Mod(new(big.Int).Add(v, u), p)
+				ak, bk := mul(a, k), mul(b, kinv)
+				half := new(big.Int).ModInverse(big.NewInt(2), p)
+				v2 = mul(new(big.Int).Add(ak, bk), half)
+				u2 = mul(new(big.Int).Mod(new(big.Int).Sub(bk, ak), p), half)
+			}
+			copy(out[64:96], bigToBytes(u2, 32, false))
+			copy(out[96:128], bigToBytes(v2, 32, false))
+			return out, kind
+		}
 		return fieldEdit(p, size/32, 32, 0)
 	case gi.Family == "qr512":
 		P := gi.Modulus
